@@ -647,7 +647,7 @@ def execute(record: dict, rng: Optional[random.Random]) -> Outcome:
                 transport=dcfg["transport"],
                 recompute=dcfg["recompute"],
                 pure=lambda c, data, value: True,
-                stall=dcfg["stall"],
+                stall=dcfg["stall"] * (0.1 if dcfg.get("trace") in ("lines", "deep") else 1.0),  # per step: line-level runs have fifty times the steps
                 kernel=kernel,
                 tag=f"r{rep}",
                 real=dcfg.get("real"),
